@@ -2,6 +2,7 @@
 import world_envelope  # noqa: F401
 import world_chain  # noqa: F401
 import world_deleg  # noqa: F401
+import world_storage  # noqa: F401
 
 REAL = ["conda_content_trust/*.py (working tree)", "pyca/cryptography + OpenSSL", "json, codecs, io.TextIOWrapper"]
 ASSUME_CRYPTO = ("ed25519 is unforgeable and a random corruption of a signature, key or header does not yield "
@@ -107,3 +108,47 @@ PLANS["C05"] = _deleg_plan(2000, 150000, ["deleg_unknown", "deleg_sigs", "deleg_
 PLANS["C06"] = _deleg_plan(2000, 150000, ["deleg_mismatch", "strip_removed_entries"])
 PLANS["C06"]["stages"].append({"world": "envelope", "runs": {"quick": 800, "thorough": 50000}})
 PLANS["C13"]["stages"].append({"world": "deleg", "runs": {"quick": 1200, "thorough": 100000}})
+
+
+RULE_STORAGE = ("one evaluation = one simulated history of 6-28 operations on files of a simulated file system: write / load / "
+                "add-signature (raw and GPG path) / re-sign / load-write cycles / verdict-vector comparison on metadata files, and "
+                "repository-side signing, re-signing, re-keying, adding/removing artifacts on repodata files followed by the client "
+                "path root -> key_mgr -> pkg_mgr; 60% of runs fault-free with a strict oracle, 40% with I/O errors, short reads and "
+                "writes, crash before close and flipped stored bits under the relaxed oracle (old, new or unparsable); non-trivial = "
+                "the run both accepted and rejected something and (fault configuration) at least one fault fired")
+STORAGE_STUB = ["SimFS (in-memory file system injected as `open`)", "SimStdout sink", "securesystemslib.gpg.functions (SimGPG stub)",
+                "repository operator and client loop (harness)"]
+PLANS["C08"] = {
+    "level": "exploration",
+    "stages": [{"world": "storage", "runs": {"quick": 2000, "thorough": 150000}}],
+    "rule": RULE_STORAGE,
+    "assumptions": [ASSUME_CRYPTO, ASSUME_SAMPLE, "durability of a real file system is approximated: a crash during an un-closed "
+                    "truncating write leaves the old content, nothing, or a prefix", "payloads <= 40 nodes, depth <= 4"],
+    "components": {"real": REAL, "stub": STORAGE_STUB},
+    "must_probe": {"all": ["signature_added_to_stored_file", "verdict_vectors_compared", "load_write_cycles", "torn_file_unparsable"]},
+}
+PLANS["C11"] = {
+    "level": "exploration",
+    "stages": [{"world": "storage", "runs": {"quick": 2000, "thorough": 150000}}],
+    "rule": RULE_STORAGE,
+    "assumptions": [ASSUME_CRYPTO, ASSUME_SAMPLE, "artifact names are distinct across packages and packages.conda (the property's precondition)",
+                    "<= 6 artifacts per section"],
+    "components": {"real": REAL, "stub": STORAGE_STUB},
+    "must_probe": {"all": ["client_verified_artifact", "repodata_signed_again", "swap_identical_metadata", "repodata_edited_remove"]},
+}
+PLANS["C18"] = {
+    "level": "fault_enumeration",
+    "stages": [{"world": "inplace", "runs": {"quick": 1000, "thorough": 40000}}],
+    "rule": ("scenarios are sampled (repodata documents with 0-6 artifacts per section in several on-disk formats, GPG-path envelopes, "
+             "CLI wrappers, malformed inputs, bad keys/fingerprints); within each scenario the enumeration is exhaustive: an exception "
+             "at every line event executed inside library frames before the first opening-for-write of the target, an I/O error or "
+             "short read at every file-system operation before it, a failure of every callee-seam call (signing device per artifact, "
+             "GnuPG create_signature / export_pubkey, optional dependency absent); evaluations = fault-injected executions; "
+             "distinct_nontrivial = executions in which the call failed and the target's bytes were compared"),
+    "assumptions": ["line-event granularity inside conda_content_trust/*; faults inside C extensions (json, OpenSSL) are represented by "
+                    "exceptions at the calling line and by the callee seams", "faults during the output phase (after the file was opened "
+                    "for writing) are outside the property's wording; they are injected and counted as out-of-scope observations"],
+    "components": {"real": REAL, "stub": STORAGE_STUB + ["signing device proxy (HSM seam)"]},
+    "technique": "deterministic simulation with exhaustive per-scenario fault-point enumeration (sys.settrace exception injection, SimFS "
+                 "fault plan, callee-seam failures) over seeded scenarios",
+}
